@@ -283,15 +283,23 @@ def AdapterSt.save (a : AdapterSt) (s : Store) : AdapterSt × Option Unit :=
         d.policy.map (fun r => (String.ofList (d.key.toList.take 1)) :: d.key :: r))
       ({ a with lines := ls.foldl insertMove [] }, some ())
     | k =>
+      -- file_adapter.rs:164-166, string_adapter.rs:126-128: a model without a policy definition is refused
+      -- (`ModelError::P`) before anything is written
+      if s.p.isEmpty then (a, none) else
       let sep := if k = .file then [','] else [',', ' ']
       let ls := (s.p ++ s.g).flatMap (fun d =>
         d.policy.map (fun r => renderLine sep d.key.toList (r.map String.toList) ++ ['\n']))
       ({ a with text := ls.flatten }, some ())
 
+/-- the failure of a save is the adapter's own, except that the file and string adapters, when they are reached, refuse a
+model without a policy definition with a model error -/
+def AdapterSt.saveErr (a : AdapterSt) (s : Store) : ErrKind :=
+  if (a.kind = .file || a.kind = .string) && s.p.isEmpty && a.nextFault.1 = .pass then .model else .adapter
+
 def Enforcer.savePolicy (e : Enforcer) : Enforcer × Res :=
   if e.adapter.filtered then (e, .panic) else
   match e.adapter.save e.store with
-  | (a, none) => ({ e with adapter := a }, .err .adapter)
+  | (a, none) => ({ e with adapter := a }, .err (e.adapter.saveErr e.store))
   | (a, some ()) =>
     let e := { e with adapter := a }
     (e.emit (.savePolicy (e.store.allOf "p" ++ e.store.allOf "g")), .unit)
